@@ -87,6 +87,23 @@ class C07Monitor(jobsim.Monitor):
             if not ok:
                 self.V("reduced-system", "free increments are not the linear solver's answer", site="solve.dx1")
         self.log.count("reduced-system-checked")
+        # the public helper tools.solve(K, rhs, field, dof0, dof1, offsets, ext0) is the same
+        # partitioned solve, split per field (checked with the library's default solver)
+        if c["iter"] == 0 and np.all(np.isfinite(it["b"])) and np.all(np.isfinite(K.data)):
+            xo = it["xobj"]
+            parts = fem.tools.solve(K, it["b"], xo, dof0, dof1, xo.offsets, ext0)
+            got = np.concatenate([np.asarray(p).ravel() for p in parts])
+            sizes = [f.values.size for f in xo.fields]
+            if [np.asarray(p).size for p in parts] != sizes:
+                self.V("reduced-system", f"tools.solve returns parts of sizes {[np.asarray(p).size for p in parts]} for fields of sizes {sizes}", site="tools.solve.split")
+            if not np.allclose(got[dof0], want, rtol=1e-13, atol=1e-15):
+                self.V("reduced-system", "tools.solve: prescribed increments are not ext0 - u0", site="tools.solve.dx0")
+            if dof1.size and np.all(np.isfinite(got)):
+                res_ = K11 @ got[dof1] - b
+                lim = 1e-8 * (float(abs(K11).max()) * float(np.abs(got[dof1]).max()) * np.sqrt(dof1.size) + float(np.abs(b).max())) + 1e-300
+                if np.linalg.norm(res_) > lim:
+                    self.V("reduced-system", f"tools.solve: K11 dx1 = -r1 - K10 (ext0 - u0) is not satisfied (residual {np.linalg.norm(res_):.3e} > {lim:.3e})", site="tools.solve.dx1")
+            self.log.count("tools-solve-checked")
 
     # -- results -----------------------------------------------------------------------------
     def on_substep_end(self, eng, c):
